@@ -56,6 +56,14 @@ type Policy struct {
 	// is later than its end time by more than this allowance (RFC 4120 3.2.3: "later than end time
 	// by more than the allowable clock skew"); 0 = no allowance.  Both are conformant.
 	ExpiryGraceS int64 `json:"expiry_grace_s,omitempty"`
+	// TerseErrors: KRB-ERRORs carry none of the optional cname/crealm.  OmitDefaultSalt: ETYPE-INFO2
+	// entries of a principal with the default salt carry no salt (the field is optional: absent
+	// means default).  Both conformant.
+	// TerseASRep: the AS-REP to a pre-authenticated request does not repeat the string-to-key hints
+	// (RFC 4120 5.2.7.5: they MAY be sent in the reply).
+	TerseASRep      bool `json:"terse_asrep,omitempty"`
+	TerseErrors     bool `json:"terse_errors,omitempty"`
+	OmitDefaultSalt bool `json:"omit_default_salt,omitempty"`
 	// TicketAuthDataPad: every ticket carries this many bytes of authorization data (as tickets with a
 	// PAC of many group memberships do): the size of the replies grows by as much.
 	TicketAuthDataPad int `json:"ticket_authdata_pad,omitempty"`
@@ -99,6 +107,7 @@ type ReqRecord struct {
 	Verdict   string   // issued:<serial> | error:<code> | undecodable
 	Notes     []string // oracle-relevant observations (bad checksum, bad timestamp ...)
 	PAKeyOK   *bool    // PA-ENC-TIMESTAMP decrypted under the key the KDC advertised
+	PAEtype   int32    // etype of the PA-ENC-TIMESTAMP's EncryptedData (0 = none or undecodable)
 	PATime    *time.Time
 	Renew     bool
 	TGTCipher []byte // enc-part ciphertext of the TGT presented (TGS)
@@ -326,7 +335,7 @@ func (k *KDC) errReply(code int32, req *rk.KDCReq, edata []byte, etext string) [
 		if req.SName != nil {
 			e.SName = *req.SName
 		}
-		if req.CName != nil {
+		if req.CName != nil && !k.Policy.TerseErrors {
 			e.CName = req.CName
 			cr := req.Realm
 			e.CRealm = &cr
@@ -402,7 +411,7 @@ func (k *KDC) hintsWith(p *Principal, req *rk.KDCReq, hints []string) []rk.PADat
 				if k.Policy.S2KParamsForAll && ent.S2KParams == nil {
 					ent.S2KParams = []byte{0, 0, 0x10, 0} // a KDC that sends parameters for etypes that define none
 				}
-				if e != 23 {
+				if e != 23 && !(k.Policy.OmitDefaultSalt && p.Salt == "") {
 					ent.Salt = &s
 				}
 				es = append(es, ent)
@@ -504,6 +513,7 @@ func (k *KDC) handleAS(req *rk.KDCReq, rec *ReqRecord, l *taskLog, pt []Perturb)
 		ed, err := rk.DecEncData(pa.Value)
 		okKey := false
 		if err == nil {
+			rec.PAEtype = ed.Etype
 			if pk, ok := cp.KeyFor(k.Realm, int(ed.Etype)); ok {
 				if pt, err := rk.Open(ed, pk.Key, rk.KUPAEncTS); err == nil {
 					okKey = true
@@ -614,10 +624,14 @@ func (k *KDC) handleAS(req *rk.KDCReq, rec *ReqRecord, l *taskLog, pt []Perturb)
 		cname: *req.CName, crealm: k.Realm, sname: *req.SName, tkey: tkey, sess: sess,
 		flags: flags, authtime: start, start: start, end: end, renewTill: renewTill, caddr: caddr,
 		replyKey: ckey.Key, replyKvno: ckey.Kvno, replyUsage: rk.KUASRepEncPart, msgType: rk.MsgASRep, encTag: 25,
-		padata: k.asRepPAData(cp, req)}), 0
+		padata: k.asRepPAData(cp, req, preauthed)}), 0
 }
 
-func (k *KDC) asRepPAData(cp *Principal, req *rk.KDCReq) []rk.PAData {
+func (k *KDC) asRepPAData(cp *Principal, req *rk.KDCReq, preauthed bool) []rk.PAData {
+	if k.Policy.TerseASRep && preauthed {
+		// the client has proved that it knows how the key is derived
+		return nil
+	}
 	if !k.Policy.HintsInASRep && !cp.NonDefaultS2K() {
 		return nil
 	}
